@@ -199,6 +199,79 @@ def freshValue {V} (cfg : Cfg) (sem : Sem V) (d : ModelDef) (pv : List Rat) (e :
   let r := evalStep cfg (cinit cfg d pv) e
   sem e r.2.1.defn r.2.1.sp (x ++ [t] ++ (cinit cfg d pv).pvals)
 
+/-! ### secondary entry points: public aliases of the evaluators
+
+`ode_T(t, state)`, `jacobian_T`, `grad_T`, `diff_jacobian_T`, `grad_jacobianT` (the time-first twins handed to the
+integrators by `integrate2` and the loss classes) and `total_transition` (`sum(self.eventRateVector(...))`) are not
+registered with `add_func`: as written each is `return self.<target>(state, t)`, i.e. it goes through the `func` closure
+of the evaluator it names - the SAME compiled object behind the SAME flag.  An alias therefore is the `evaluate` of its
+target (`AliasImpl.method`).  The other way to write one is a fast path that calls `<target>Compiled` directly while some
+canary `g` is alive (`AliasImpl.direct g`): harmless when `g` is the target's own flag, stale when it is another one
+(e.g. the master `ode`, which is reset by the ode's own recompile while the target is still tripped). -/
+
+inductive Alias
+  | odeT | jacobianT | gradT | diffJacobianT | gradJacobianT | totalTransition
+deriving DecidableEq, Repr, Inhabited
+
+def Alias.all : List Alias := [.odeT, .jacobianT, .gradT, .diffJacobianT, .gradJacobianT, .totalTransition]
+
+/-- the method name -/
+def Alias.name : Alias → String
+  | .odeT => "ode_T" | .jacobianT => "jacobian_T" | .gradT => "grad_T" | .diffJacobianT => "diff_jacobian_T"
+  | .gradJacobianT => "grad_jacobianT" | .totalTransition => "total_transition"
+
+/-- the evaluator whose compiled object the alias returns (`total_transition` sums its entries) -/
+def Alias.target : Alias → Ev
+  | .odeT => .ode | .jacobianT => .jacobian | .gradT => .grad | .diffJacobianT => .diffJacobian
+  | .gradJacobianT => .gradJacobian | .totalTransition => .eventRateVector
+
+def Alias.ofName? (s : String) : Option Alias := Alias.all.find? (fun a => a.name == s)
+
+/-- how an alias reaches the compiled object -/
+inductive AliasImpl
+  | method               -- `return self.<target>(state, t)`
+  | direct (guard : Ev)  -- `if hasattr(self, "<target>Compiled") and not self._hasNewTransition.<guard>: return self.<target>Compiled(...)`,
+                         --  else `return self.<target>(state, t)`
+deriving DecidableEq, Repr, Inhabited
+
+/-- one call of an alias of `e` -/
+def aliasStep (cfg : Cfg) (impl : AliasImpl) (s : CState) (e : Ev) : CState × Snap × Bool :=
+  match impl with
+  | .method => evalStep cfg s e
+  | .direct g =>
+    match s.snap e with
+    | some sn => if s.flag g then evalStep cfg s e else (s, sn, false)
+    | none => evalStep cfg s e
+
+/-- operations of a history that may go through aliases -/
+inductive AOp
+  | op (o : Op)
+  | alias (a : Alias) (x : List Rat) (t : Rat)      -- `model.<alias>(t, x)`
+deriving Inhabited
+
+def astep (cfg : Cfg) (impl : Alias → AliasImpl) (s : CState) : AOp → CState × Option Obs
+  | .op o => step cfg s o
+  | .alias a x t =>
+    let r := aliasStep cfg (impl a) s a.target
+    (r.1, some ⟨a.target, r.2.1, r.2.2, s.cur, s.ver, s.pvals, x, t⟩)
+
+/-- the observations of a history with aliases, in order -/
+def arun (cfg : Cfg) (impl : Alias → AliasImpl) (s : CState) : List AOp → List Obs
+  | [] => []
+  | op :: ops =>
+    let r := astep cfg impl s op
+    match r.2 with
+    | some o => o :: arun cfg impl r.1 ops
+    | none => arun cfg impl r.1 ops
+
+/-- an alias written as the source writes it IS the evaluation of its target -/
+def AOp.lower : AOp → Op
+  | .op o => o
+  | .alias a x t => .evaluate a.target x t
+
+/-- the aliases as the source writes them (`Pygom.C08Source.extracted_alias_impl_ok` re-checks this against the text) -/
+def sourceAliasImpl : Alias → AliasImpl := fun _ => .method
+
 /-! ### two live instances, and where the flags live
 
 `CompileCanary._states = {}` is a CLASS attribute.  `CompileCanary.trip()` as written REBINDS it
